@@ -17,25 +17,7 @@ COMPOSITION, part 5: histories of disassembler commands over the REAL dependency
 namespace Mltwist.Lemmas.Compose
 open Mltwist Mltwist.Listing Mltwist.Listing.Spec Mltwist.Lemmas.Deps Mltwist.Lemmas.Listing
 
-/-- the real operation behind `Lines.Move` when the rows at the two line numbers are `rf`, `rt` -/
-def movedDeps (c : Deps.Code) (rf rt : Option Row) : Deps.Code :=
-  match rf, rt with
-  | some a, some b =>
-    match a.block, b.block with
-    | some fb, some tb =>
-      match a.instr, b.instr with
-      | none, none => (realMoveBlock c fb tb).getD c
-      | some fi, some ti => if fb = tb then (realMoveIns c fb fi ti).getD c else c
-      | _, _ => c
-    | _, _ => c
-  | _, _ => c
-
-/-- the real state after a command of the disassembler mode -/
-def nextDeps (c : Deps.Code) (st : St) : Cmd → Deps.Code
-  | .move f t =>
-    if f ≥ st.lines.len ∨ t ≥ st.lines.len then c
-    else movedDeps c ((st.lines.lines[f]?).map rowOf) ((st.lines.lines[t]?).map rowOf)
-  | _ => c
+-- `movedDeps`, `nextDeps`: `Model/Compose.lean`
 
 /-! ### the real operations are steps of C07's histories -/
 
